@@ -434,6 +434,13 @@ def gen_ring0(ctx: Ctx, family: Optional[str]) -> Optional[List[Any]]:
             k = rng.randint(1, 40)
             return ["forall", "<entry>", "e", None, "start",
                     ["exists", "<num>", "n", None, "e", ["smt", [rng.choice([">", ">=", "<"]), ["str.to.int", ["v", "n"]], ["i", k]]]]]
+        if family == "lines":
+            r = rng.random()
+            if r < 0.4:
+                return ["count", ["v", "start"], "<eol>", ["i", rng.randint(0, 3)]]
+            if r < 0.7:
+                return ["exists", "<eol>", "e", None, "start", ["smt", ["=", ["v", "e"], ["s", ctx.g["<eol>"][0]]]]]
+            return ["forall", "<line>", "l", None, "start", ["exists", "<eol>", "e", None, "start", ["pred", "before", ["v", "l"], ["v", "e"]]]]
         if family == "signed":
             return ["forall", "<int>", "x", [["b", "s", "<sign>"], ["b", "d", "<digits>"]], "start",
                     ["or", ["smt", ["=", ["v", "s"], ["s", "-"]]], ["smt", ["<", ["str.to.int", ["v", "d"]], ["i", rng.randint(3, 50)]]]]] \
